@@ -37,9 +37,10 @@ CONFIG["C15"] = dict(
     technique="Lean 4 proof (range, permutation invariant by induction over the Fisher-Yates loop, swap shape, error guards) + differential run",
     level_text="Theorems for every n, (n,m) and generator state: UintN in range, Permutation is a permutation (count invariant), SubPermutation a prefix of one, "
                "Samples applies swaps (i,i+j) with i+j<n, error guards. Exact uniformity of UintN: the candidate is the fresh bytes' number mod 2^k (stale scratch bytes never matter), every value < 2^k is hit by exactly 2^(8*size-k) of the 256^size byte strings, the loop returns the first accepted candidate. "
-               "Equal likelihood of the n! / n!/(n-m)! outcomes of the shuffles (bijectivity of Fisher-Yates choice vectors) is not yet a theorem (partial).",
+               "Equal likelihood of the shuffles: Permutation is the pure inside-out Fisher-Yates on the vector of its draws (permutation_run) and that map is injective on the n! valid choice vectors "
+               "(permutation_choices_injective); Samples/Shuffle report the swaps of a valid choice vector (samplesLoop_choices) and distinct vectors give distinct ordered samples on any array of distinct elements (samples_choices_injective).",
     level_note="Lean kernel; rejection loop modelled with fuel (the model does not return when fuel is exhausted; the harness never hit that); "
-               "the product-counting step from per-attempt uniformity to the distribution of the loop output is the classical argument, not formalised",
+               "the product-counting steps (per-attempt uniformity -> distribution of the rejection loop; uniform independent choices + injectivity -> uniform outcomes) are the classical arguments, not formalised as probability statements",
     assumptions=["PRG bytes are as in C14"],
 )
 
@@ -52,10 +53,12 @@ CONFIG["C05"] = dict(
          "non-zero byte at each position, on-curve points outside the subgroup built by the model (E1 and E2, torsion and full order), single-bit flips, "
          "every compressed prefix byte; outcome class and re-encoded bytes compared with the Lean codec model; Equal round trip evaluated on the implementation",
     trusted_base=COMMON_TB + ["modelled, not verified: BLST field/curve arithmetic and subgroup checks, crypto/elliptic, crypto/ecdh, btcec (compared on the generated catalogue)"],
-    technique="Lean 4 proof (accepts-iff / canonical / round-trip theorems for scalar and raw-point codecs) + differential run of codec model vs real decoders",
+    technique="Lean 4 proof (accepts-iff / canonical / round-trip theorems for scalar, raw-point and compressed BLS point codecs, primality by Pratt certificates) + differential run of codec model vs real decoders",
     level_text="Theorems for all byte strings: BLS and ECDSA private-key decoders and the raw ECDSA public-key decoder accept exactly the canonical encodings and re-encode to the input. "
-               "Point codecs with square roots (E1, E2, compressed ECDSA) are executable model + correspondence in this round (partial).",
-    level_note="Lean kernel; point decompression laws (need Fermat/Euler in ZMod p) not yet theorems; known finding F2 (component order vs ZCash) is reported as KNOWN-FINDING",
+               "BLS signatures (E1_read_bytes) and public keys (E2_read_bytes + G2 check): accepted = canonical compressed encodings of reduced curve points (resp. of points with r*P = O, the identity being exactly C0 00..00), "
+               "accepted strings re-encode to the input, every such point round-trips (bls_sig_accepts_iff, bls_pk_accepts_iff, bls_pk_identity): p prime (Pratt certificate checked by the kernel), p = 3 mod 4, "
+               "completeness of the F_p and F_p^2 square roots of the model, no point with y = 0 on E1 or E2 (-4 and 32 are non-cubes mod p). The X9.62-compressed ECDSA codec is executable model + correspondence (partial).",
+    level_note="Lean kernel; the subgroup test r*P = O is the model's Jacobian scalar multiplication (not related to the group law by a theorem); known finding F2 (component order vs ZCash) is reported as KNOWN-FINDING",
     assumptions=["BLST and Go standard library arithmetic agree with the model outside the generated catalogue"],
 )
 
@@ -95,7 +98,8 @@ BLS_TB = COMMON_TB + [
     "modelled, not verified: blst_src (field/curve arithmetic, hash-to-curve, pairing, subgroup checks); the abstract theorems assume a bilinear non-degenerate pairing "
     "and a subgroup test deciding the image of G1 in E1 (structure PairingGroups, universally quantified, instantiated by a toy instance for non-vacuity); "
     "agreement of BLST with that structure is established by the correspondence run only",
-    "the abstract Codec laws (decode/encode inverse, 48-byte length) are hypotheses of the BLS theorems; the concrete E1 codec model is tied to them by correspondence (C05)",
+    "the abstract Codec laws (decode/encode inverse, 48-byte length) are hypotheses of the abstract BLS theorems; for the executable model of E1_read_bytes/E1_write_bytes they are theorems "
+    "(Props.C01.concrete_codec_laws, Props.C05.bls_sig_accepts_iff; p prime by a kernel-checked Pratt certificate), and that model is tied to the C functions by correspondence (C05)",
 ]
 
 def _bls(prop, modules, rule, technique, text, note, gens=None):
@@ -111,7 +115,8 @@ _bls("C01", ["Props.C01"],
      "fixed hashers with chosen 128-byte outputs (zeros, ones, chunks >= p), identity keys obtained 4 ways, hasher guards; expected verdict: candidate == encode(sk*H) and sk != 0",
      "Lean 4 proof (acceptance theorem from bilinearity + codec laws) + differential run vs concrete E1 arithmetic model",
      "Theorem verify_iff: for every pairing structure, hash-to-curve, codec, non-zero key, message and 128-byte hasher, Verify is true for exactly the string Sign returns; corollaries for other message/key, "
-     "points outside the subgroup, malformed strings, identity signature, identity key, hasher guards; guards tied to extracted conditions.",
+     "points outside the subgroup, malformed strings, identity signature, identity key, hasher guards; guards tied to extracted conditions. concrete_codec_laws / signature_encoding_unique: the codec laws hold for the "
+     "executable E1 codec (every accepted string is the one canonical encoding of a reduced curve point; every such point round-trips).",
      "Lean kernel + correspondence; see trusted base")
 _bls("C02", ["Props.C02"],
      "random shapes n<=12 (thorough n<=40): all-distinct, all-equal, few-messages/many-keys, few-keys/many-messages, ties, duplicated pairs, pk and -pk on one message, equal points held in decoded / "
@@ -210,7 +215,8 @@ CONFIG["C06"] = dict(
     trusted_base=BLS_TB, technique="Lean 4 proof (Lagrange interpolation at zero via Mathlib, limb overflow bound, stateful invariants) + differential run",
     level_text="Theorems: for every field, polynomial of degree <= t and set of >= t+1 distinct nodes, combining shares P(x_i)*h with the Lagrange coefficients gives P(0)*h (hence identical output for every subset/order; public shares interpolate to the group key); "
                "products of <= 8 indices <= 255 fit a 64-bit limb; the stateful object never returns a signature failing group verification, < t+1 shares give not-enough-shares. "
-               "That the limb-batched loop with sign tracking equals the textbook coefficient is checked at run time on every case, not yet a theorem (partial).",
+               "coeff_is_lagrange: for every index list (entries <= 255) and position the limb-batched loop with sign tracking and Fermat inversion (Model.Threshold.coeff, the function the driver runs) equals the textbook "
+               "coefficient prod x_j/(x_j-x_i) in F_r, r prime by a kernel-checked Pratt certificate; c_loop_reconstructs: hence the C loop's weights reconstruct P(0)*h.",
     level_note="Lean kernel + correspondence",
     assumptions=["BLST multi-scalar multiplication and Fr inversion compute the field/group operations"],
 )
